@@ -94,6 +94,9 @@ def render_val_item(src, it, items, consts):
 
 def default_src(src, kind):
     fam = src["fam"]
+    if kind == "block":
+        # the same valid default, written with braces (an `if`/`else` expression)
+        return "if true { %s } else { %s }" % (default_src(src, "valid"), default_src(src, "valid"))
     valid = kind == "valid"
     if fam == "int":
         return "6" if valid else "0"
